@@ -23,7 +23,7 @@ CONSTANTS EvalTimes, Lookbacks, DefStep,
 
 VARIABLES et, elb, res
 
-vars == <<store, expr, stage, nwr, et, elb, res>>
+vars == <<store, expr, stage, nwr, nruns, et, elb, res>>
 View == <<store, expr, stage, et, elb>>
 
 Init == BuildInit /\ et = 0 /\ elb = 0 /\ res = None
@@ -31,7 +31,7 @@ Init == BuildInit /\ et = 0 /\ elb = 0 /\ res = None
 Evaluate(t, lb) ==
   /\ stage = "query" /\ expr # None
   /\ stage' = "eval" /\ et' = t /\ elb' = lb
-  /\ UNCHANGED <<store, expr, nwr, res>>
+  /\ UNCHANGED <<store, expr, nwr, nruns, res>>
 
 Ctx(t, lb) == [qs |-> t, qe |-> t, lb |-> lb, ds |-> DefStep]
 
@@ -51,7 +51,7 @@ Finish ==
              \* transcription of the code as it is computes (only when it differs)
              kf |-> KFLabel(asIs, Impl({"kf1"}), Impl({"kf2"}), ref),
              impl |-> IF asIs = ref THEN <<>> ELSE asIs]
-  /\ UNCHANGED <<store, expr, nwr, et, elb>>
+  /\ UNCHANGED <<store, expr, nwr, nruns, et, elb>>
 
 Next == \/ BuildNext /\ UNCHANGED <<et, elb, res>>
         \/ \E t \in EvalTimes, lb \in Lookbacks : Evaluate(t, lb)
